@@ -1,5 +1,6 @@
 import Operon.Lemmas.C19
 import Operon.Model.CascadeTr
+import Operon.Model.CascadeMapk
 import Operon.Gen.CascadeTable
 import Operon.Gen.CascadeTranslated
 /-!
@@ -171,6 +172,15 @@ theorem c19_stage_table_agrees :
 private def sPassE : Stage Nat := ⟨some fun _ => .ok true, fun x => .ok (x + 1), none, true, 2⟩
 private def sRejectE : Stage Nat := ⟨some fun _ => .ok false, fun x => .ok (x + 1), none, true, 2⟩
 
+/-- **The MAPK preset of the model is the shipped one.**  `Gen/CascadeTable.lean :: mapkFacts` is regenerated on every run by
+    evaluating the real `MAPKCascade(2, 3, 5)`'s three stage objects: which tiers are gated, their factors (tier k carries the
+    k-th constructor factor), `required`, no handlers, and — on a raw input and on the dicts of tier 1 / 2 / 3 as the preset itself
+    produces them — every gate's answer (true / false / raises) and the tier every processor outputs (or that it raises).
+    `mapkPreset` reproduces all of it, so the clause theorems, which hold for every stage list, speak about the preset. -/
+theorem c19_mapk_preset_agrees_with_evaluated_source :
+    ∃ f, Gen.CascadeTable.mapkFacts = some f ∧ mapkAgrees f = true := by
+  refine ⟨_, rfl, by decide +kernel⟩
+
 /-! ### The source of `Cascade.run`, translated on every run, is the model
 
 `Gen/CascadeTranslated.lean` is regenerated on every run by `harness/vf/extract/py2lean_cascade.py`, which executes the
@@ -335,18 +345,12 @@ example : (result ⟨true, 1/2⟩ [⟨none, fun _ => .raise, some fun _ => .ok 9
 example : (Ev.cp 0 5 (.ok false)) ∈ (result ⟨false, 100⟩ [sReject, sPass] 5).log ∧
     (Ev.cp 0 5 .raise) ∈ (result ⟨false, 100⟩ [sRaiseGate, sPass] 5).log := by decide +kernel
 
-/-- the shipped MAPK preset as an instance of `∀ stages` (signals abstracted to the tier they carry: 0 = a raw, non-dict
-    input, k = the dict of tier k; tier 1 ungated, tier 2 gated on `active`, tier 3 gated on `tier == 2`; a raw signal at a
-    gate makes `x.get` raise): the default factors 10·10·10 are held at the default maximum 100 -/
-private def mapk (a1 a2 a3 : Rat) : List (Stage Nat) :=
-  [⟨none, fun _ => .ok 1, none, true, a1⟩,
-   ⟨some fun x => if x = 0 then .raise else .ok true, fun x => if x = 0 then .raise else .ok 2, none, true, a2⟩,
-   ⟨some fun x => if x = 0 then .raise else .ok (x == 2), fun x => if x = 0 then .raise else .ok 3, none, true, a3⟩]
-
-example : (result ⟨true, 100⟩ (mapk 10 10 10) 0).success = true ∧ (result ⟨true, 100⟩ (mapk 10 10 10) 0).final = some 3 ∧
-    (result ⟨true, 100⟩ (mapk 10 10 10) 0).amplification = 100 ∧
-    (result ⟨true, 1000⟩ (mapk 10 10 10) 0).amplification = 1000 ∧
-    (result ⟨true, 100⟩ (mapk 10 10 10) 0).log = [.proc 0 0, .cp 1 1 (.ok true), .proc 1 1, .cp 2 2 (.ok true), .proc 2 2] := by
+/-- the shipped MAPK preset (`mapkPreset`, tied to the source by `c19_mapk_preset_agrees_with_evaluated_source`) as an instance
+    of `∀ stages`: the default factors 10·10·10 are held at the default maximum 100 -/
+example : (result ⟨true, 100⟩ (mapkPreset 10 10 10) 0).success = true ∧ (result ⟨true, 100⟩ (mapkPreset 10 10 10) 0).final = some 3 ∧
+    (result ⟨true, 100⟩ (mapkPreset 10 10 10) 0).amplification = 100 ∧
+    (result ⟨true, 1000⟩ (mapkPreset 10 10 10) 0).amplification = 1000 ∧
+    (result ⟨true, 100⟩ (mapkPreset 10 10 10) 0).log = [.proc 0 0, .cp 1 1 (.ok true), .proc 1 1, .cp 2 2 (.ok true), .proc 2 2] := by
   decide +kernel
 
 end Operon.Cascade
